@@ -16,6 +16,8 @@ RULE = (
     "[-2, dim+2) x numpy/bool/float index types is executed.  Non-trivial: cases on non-square grids "
     "or conventions with several grid kinds (out-of-range probes are part of every case)."
 )
+LEVEL_TEXT = ('every grid kind x every linear index with margin x every native index with margin, on every grid shape up to 4x4 (5x1) of every convention and every mesh of the library, compared with row-major arithmetic; out-of-range must raise')
+LEVEL_NOTE = ('numpy, the builders in mc/builders.py; shapes above the bound are not explored')
 ASSUMPTIONS = [
     "numpy integer arithmetic; the reference is pure-Python row-major arithmetic over the sizes the builder chose",
     "float/bool linear indexes: either a refusal or the exactly equal integer result is accepted",
